@@ -447,7 +447,8 @@ impl TableWorld {
                 },
                 Some(Kind::Enum { values }) => Ans::Enum(values[0].0.clone()),
                 Some(Kind::Object { .. }) => Ans::Obj(n.clone()),
-                Some(Kind::Interface { .. } | Kind::Union { .. }) => Ans::Obj(s.possible_types(n).first().cloned().unwrap_or_default()),
+                // an abstract type nothing implements can only be null
+                Some(Kind::Interface { .. } | Kind::Union { .. }) => s.possible_types(n).first().cloned().map(Ans::Obj).unwrap_or(Ans::Null),
                 _ => Ans::Null,
             },
         }
